@@ -144,14 +144,8 @@ func bech32Of(a common.Address) string { return sdk.AccAddress(a.Bytes()).String
 // packPCall ABI-encodes a symbolic precompile call.
 func (m *evmWorld) packPCall(w *e.World, c *PCall) ([]byte, bool) {
 	who, _ := m.resolveAddr(w, c.Who)
-	val := ""
-	if len(w.Vals) > 0 {
-		val = w.Vals[abs(c.Val)%len(w.Vals)].ValAddr.String()
-	}
-	val2 := ""
-	if len(w.Vals) > 0 {
-		val2 = w.Vals[abs(c.Val2)%len(w.Vals)].ValAddr.String()
-	}
+	val := valString(w, c.Val)
+	val2 := valString(w, abs(c.Val2))
 	amt := e.BigS(c.Amt)
 	var bz []byte
 	var err error
